@@ -27,7 +27,31 @@ static sx_block blocks[MAXBLK];
 static int nblocks;
 void (*sx_on_free)(const sx_block *b);
 
-static int tracked(uintptr_t a) { return a >= (uintptr_t)arena && a < (uintptr_t)arena + ARENA_SZ; }
+static int in_arena(uintptr_t a) { return a >= (uintptr_t)arena && a < (uintptr_t)arena + ARENA_SZ; }
+/* The library's own static storage (.data / .bss of its objects, renamed by the driver to libdata / libbss / libdrl / libdr so that the linker
+ * brackets them with __start_ / __stop_ symbols) is shared memory like the arena: a lock table, a free list or a scratch object kept at file
+ * scope is accessed by every thread.  Accesses to it are scheduling points; it is part of the state key, of the snapshots and of the race checks,
+ * and it is put back to its initial image at the start of every execution. */
+#define STAT_MAX 4096
+extern char __start_libbss[] __attribute__((weak)), __stop_libbss[] __attribute__((weak)), __start_libdata[] __attribute__((weak)), __stop_libdata[] __attribute__((weak));
+extern char __start_libdrl[] __attribute__((weak)), __stop_libdrl[] __attribute__((weak)), __start_libdr[] __attribute__((weak)), __stop_libdr[] __attribute__((weak));
+static struct { uintptr_t lo, hi; size_t cum; } SR[4]; static int nsr = -1; static size_t stat_total;
+static unsigned char stat_init[STAT_MAX];
+static void stat_setup(void)
+{
+    char *lo[4] = { __start_libbss, __start_libdata, __start_libdrl, __start_libdr }, *hi[4] = { __stop_libbss, __stop_libdata, __stop_libdrl, __stop_libdr }; int i;
+    nsr = 0; stat_total = 0;
+    for (i = 0; i < 4; i++) if (lo[i] && hi[i] > lo[i] && stat_total + (size_t)(hi[i] - lo[i]) <= STAT_MAX) {
+        SR[nsr].lo = (uintptr_t)lo[i]; SR[nsr].hi = (uintptr_t)hi[i]; SR[nsr].cum = stat_total;
+        memcpy(stat_init + stat_total, lo[i], (size_t)(hi[i] - lo[i])); stat_total += (size_t)(hi[i] - lo[i]); nsr++;
+    }
+}
+static int in_statics(uintptr_t a) { int i; for (i = 0; i < nsr; i++) if (a >= SR[i].lo && a < SR[i].hi) return 1; return 0; }
+static void stat_copy_out(unsigned char *dst) { int i; for (i = 0; i < nsr; i++) memcpy(dst + SR[i].cum, (void *)SR[i].lo, SR[i].hi - SR[i].lo); }
+static void stat_copy_in(const unsigned char *src) { int i; for (i = 0; i < nsr; i++) memcpy((void *)SR[i].lo, src + SR[i].cum, SR[i].hi - SR[i].lo); }
+/* virtual offset of a tracked address: arena first, then the static ranges */
+static size_t voff(uintptr_t a) { int i; if (in_arena(a)) return a - (uintptr_t)arena; for (i = 0; i < nsr; i++) if (a >= SR[i].lo && a < SR[i].hi) return ARENA_SZ + SR[i].cum + (a - SR[i].lo); return (size_t)-1; }
+static int tracked(uintptr_t a) { return in_arena(a) || in_statics(a); }
 const sx_block *sx_block_of(const void *p)
 {
     int i; uintptr_t a = (uintptr_t)p;
@@ -209,6 +233,7 @@ static uint64_t mem_hash(void)
 {
     key128 k = { 1469598103934665603ULL, 7 };
     kmix(&k, arena, arena_used); kmix(&k, blocks, sizeof blocks[0] * (size_t)nblocks);
+    { int i_; for (i_ = 0; i_ < nsr; i_++) kmix(&k, (void *)SR[i_].lo, SR[i_].hi - SR[i_].lo); }
     return k.a ^ (k.b << 1);
 }
 static int thr_enabled(int t) { return !T[t].finished && !(T[t].pend.kind == SX_OP_YIELD && T[t].yield_seen == mem_version); }
@@ -216,6 +241,7 @@ static key128 state_key(void)
 {
     key128 k = { 1469598103934665603ULL, 99 }; int t;
     kmix(&k, arena, arena_used); kmix(&k, blocks, sizeof blocks[0] * (size_t)nblocks); kmix(&k, &arena_used, sizeof arena_used);
+    { int i_; for (i_ = 0; i_ < nsr; i_++) kmix(&k, (void *)SR[i_].lo, SR[i_].hi - SR[i_].lo); }
     kmix(&k, SC->world, SC->world_size);
     for (t = 0; t < SC->nthreads; t++) {
         int en = thr_enabled(t);
@@ -285,6 +311,8 @@ static void exec_begin(void)
 {
     int t;
     arena_used = 0; nblocks = 0; memset(arena, 0, sizeof arena); memset(blocks, 0, sizeof blocks);
+    if (nsr < 0) stat_setup();
+    stat_copy_in(stat_init);
     failed = 0; fail_msg[0] = 0; mem_version = 0; cur = -1;
     memset(T, 0, sizeof T);
     hb_reset();
@@ -333,14 +361,14 @@ static void race_check(void)
  * it exists for changes that weaken an order: then two conflicting accesses can be unordered by happens-before although no SC
  * interleaving makes them adjacent.  Vector clocks and shadow words are part of the snapshots but not of the state key, so along
  * pruned executions the check is not repeated: it never raises a false alarm, and it is not claimed to be complete. ---- */
-#define NWORDS (ARENA_SZ / 8)
+#define NWORDS ((ARENA_SZ + STAT_MAX) / 8)
 #define MAXALOC 32
 static unsigned VC[SX_MAXT][SX_MAXT];
 static struct { uintptr_t addr; unsigned rel[SX_MAXT]; } ALOC[MAXALOC];
 static int naloc;
 static struct { int wt; unsigned wc; unsigned rc[SX_MAXT]; } SH[NWORDS];
 static void hb_reset(void) { int i; memset(VC, 0, sizeof VC); memset(ALOC, 0, sizeof ALOC); naloc = 0; memset(SH, 0, sizeof SH); for (i = 0; i < NWORDS; i++) SH[i].wt = -1; }
-static void hb_fresh(uintptr_t a, size_t n) { size_t w; for (w = (a - (uintptr_t)arena) / 8; w < NWORDS && w * 8 + (uintptr_t)arena < a + n; w++) { memset(&SH[w], 0, sizeof SH[w]); SH[w].wt = -1; } }
+static void hb_fresh(uintptr_t a, size_t n) { size_t w; for (w = (a - (uintptr_t)arena) / 8; w < ARENA_SZ / 8 && w * 8 + (uintptr_t)arena < a + n; w++) { memset(&SH[w], 0, sizeof SH[w]); SH[w].wt = -1; } }
 static unsigned *hb_loc(uintptr_t a)
 {
     int i;
@@ -358,11 +386,12 @@ static void hb_conflict(int c, const char *mine, int other, const char *theirs, 
 }
 static void hb_access(int c, uintptr_t a, size_t n, int is_wr, int atomic)
 {
-    size_t w0 = (a - (uintptr_t)arena) / 8, w1 = (a + (n ? n : 1) - 1 - (uintptr_t)arena) / 8, w; int u;
+    size_t w0 = voff(a) / 8, w1 = w0 + ((a & 7) + (n ? n : 1) - 1) / 8, w; int u;
+    if (voff(a) == (size_t)-1) return;
     for (w = w0; w <= w1 && w < NWORDS; w++) {
         /* against the last plain write */
-        if (SH[w].wt >= 0 && SH[w].wt != c && SH[w].wc > VC[c][SH[w].wt]) { hb_conflict(c, is_wr ? (atomic ? "atomic write" : "write") : (atomic ? "atomic read" : "read"), SH[w].wt, "plain write", (uintptr_t)arena + w * 8); return; }
-        if (is_wr) for (u = 0; u < SX_MAXT; u++) if (u != c && SH[w].rc[u] > VC[c][u]) { hb_conflict(c, atomic ? "atomic write" : "write", u, "plain read", (uintptr_t)arena + w * 8); return; }
+        if (SH[w].wt >= 0 && SH[w].wt != c && SH[w].wc > VC[c][SH[w].wt]) { hb_conflict(c, is_wr ? (atomic ? "atomic write" : "write") : (atomic ? "atomic read" : "read"), SH[w].wt, "plain write", a); return; }
+        if (is_wr) for (u = 0; u < SX_MAXT; u++) if (u != c && SH[w].rc[u] > VC[c][u]) { hb_conflict(c, atomic ? "atomic write" : "write", u, "plain read", a); return; }
         if (!atomic) { if (is_wr) { SH[w].wt = c; SH[w].wc = VC[c][c]; memset(SH[w].rc, 0, sizeof SH[w].rc); } else SH[w].rc[c] = VC[c][c]; }
     }
 }
@@ -396,7 +425,7 @@ static void step(int c)
     if (is_access(o->kind)) {
         const sx_block *b = sx_block_of((void *)o->addr);
         if (b && b->freed) { char d[160]; describe(c, d, sizeof d); sx_fail("access into a freed block: %s", d); return; }
-        if (!b) { char d[160]; describe(c, d, sizeof d); sx_fail("access into arena memory outside any block (red zone): %s", d); return; }
+        if (!b && in_arena(o->addr)) { char d[160]; describe(c, d, sizeof d); sx_fail("access into arena memory outside any block (red zone): %s", d); return; }
     }
     hb_step(c);
     if (failed) return;
@@ -486,7 +515,7 @@ static int run(const int *pre, int npre, int explore, sx_stats *st, int *sched_o
 /* ---- depth-first search with snapshot / restore of the complete state (arena, block table, world, every coroutine's context and live stack) ---- */
 typedef struct {
     size_t arena_used; int nblocks; unsigned long mem_version; uint64_t arena_hash_prev;
-    unsigned char arena[ARENA_SZ]; sx_block blocks[MAXBLK];
+    unsigned char arena[ARENA_SZ]; sx_block blocks[MAXBLK]; unsigned char statics[STAT_MAX];
     unsigned char world[1024];
     unsigned char T_[sizeof T];
     ucontext_t ctx[SX_MAXT];
@@ -500,7 +529,7 @@ static int save_state(snap_t *sn)
 {
     int t;
     sn->arena_used = arena_used; sn->nblocks = nblocks; sn->mem_version = mem_version; sn->arena_hash_prev = arena_hash_prev;
-    memcpy(sn->arena, arena, arena_used); memcpy(sn->blocks, blocks, sizeof blocks[0] * (size_t)nblocks);
+    memcpy(sn->arena, arena, arena_used); memcpy(sn->blocks, blocks, sizeof blocks[0] * (size_t)nblocks); stat_copy_out(sn->statics);
     memcpy(sn->world, SC->world, SC->world_size); memcpy(sn->T_, T, sizeof T);
     memcpy(sn->vc, VC, sizeof VC); memcpy(sn->aloc, ALOC, sizeof ALOC); memcpy(sn->sh, SH, sizeof SH); sn->naloc = naloc;
     for (t = 0; t < SC->nthreads; t++) {
@@ -519,7 +548,7 @@ static void restore_state(const snap_t *sn)
     int t;
     arena_used = sn->arena_used; nblocks = sn->nblocks; mem_version = sn->mem_version; arena_hash_prev = sn->arena_hash_prev;
     memset(arena, 0, sizeof arena); memcpy(arena, sn->arena, arena_used);
-    memset(blocks, 0, sizeof blocks); memcpy(blocks, sn->blocks, sizeof blocks[0] * (size_t)nblocks);
+    memset(blocks, 0, sizeof blocks); memcpy(blocks, sn->blocks, sizeof blocks[0] * (size_t)nblocks); stat_copy_in(sn->statics);
     memcpy(SC->world, sn->world, SC->world_size); memcpy(T, sn->T_, sizeof T);
     memcpy(VC, sn->vc, sizeof VC); memcpy(ALOC, sn->aloc, sizeof ALOC); memcpy(SH, sn->sh, sizeof SH); naloc = sn->naloc;
     for (t = 0; t < SC->nthreads; t++) {
